@@ -206,11 +206,12 @@ fn worker_thread(prop: &'static dyn Prop, tier: Tier, seed: u64, t: usize, nthre
     }
 
     // 3. random search with shrinking
-    // the quick tier is fixed work sized to a few seconds per property on 16 cores
+    // the quick tier is fixed work sized to roughly 5-20 seconds per property on 16 cores
     let quick_scale: u64 = match prop.id() {
-        "C03" => 1,
-        "C01" | "C09" | "C15" => 4,
-        _ => 8,
+        "C03" => 2,
+        "C04" | "C12" | "C19" => 16,
+        "C01" | "C09" | "C15" => 12,
+        _ => 24,
     };
     // thorough: the per-property base counts times 10 (minutes per property on 16 cores)
     let thorough_scale: u64 = if prop.id() == "C03" { 2 } else { 10 };
